@@ -474,18 +474,15 @@ func (sp *Stepper) step(c Cmd, tag string) *Obs {
 	plPost := parseLog(rawPost, sp.IDs, true) // learns new ids in log order
 	post := sp.St.observe(sp.IDs)
 	if n := c.name(); n == "new_task" || n == "new_epic" || n == "plan" {
-		// the fresh ids are whatever the command actually created, in log order
-		had := map[string]bool{}
-		for _, ev := range plPre.events {
-			if t := ev["type"]; t == "new_task" || t == "new_epic" {
-				had[fmt.Sprint(ev["id"])] = true
-			}
-		}
+		// the fresh ids are whatever the command actually created, in log order:
+		// the create events it appended (plan rewrites the file, keeping the old events as a prefix)
 		fresh := []string{}
-		for _, ev := range plPost.events {
-			if t := ev["type"]; (t == "new_task" || t == "new_epic") && !had[fmt.Sprint(ev["id"])] {
+		for k, ev := range plPost.events {
+			if k < len(plPre.events) {
+				continue
+			}
+			if t := ev["type"]; t == "new_task" || t == "new_epic" {
 				fresh = append(fresh, fmt.Sprint(ev["id"]))
-				had[fmt.Sprint(ev["id"])] = true
 			}
 		}
 		c["newids"] = fresh
